@@ -193,7 +193,7 @@ def bad_values(draw, t):
     if k == "STRINGN":
         opts = [(None, "none"), (5, "int"), ("x" * 65536, "prefix-overflow")]
         if t.get("cs", 1) == 1:
-            opts.append(("caf\u00e9", "multi-unit"))         # not a 1-byte character in the type's encoding
+            opts.append(("ab\u0100", "unencodable"))         # not a 1-byte character
         if t.get("cs", 1) == 2:
             opts.append(("a\U0001F600b", "multi-unit"))
         return draw(st.sampled_from(opts))
